@@ -52,6 +52,10 @@ CHECKS = {
    technique="symbolic execution of the MIR of the parser generated from json.pest (and of the pest runtime) on fully symbolic UTF-8 input and on templates with symbolic holes; every path compared with an RFC 8259 recogniser evaluated on the same path condition; z3 decides every branch",
    text="Every valid UTF-8 input of 0..N bytes (N=4 quick, 6 thorough; all bytes symbolic) and 41 templates (arrays, objects, members, strings with escapes and \\uXXXX, numbers with fraction/exponent, literals, surrounding whitespace, near-misses such as leading zeros, bare signs, trailing commas, control characters, truncated literals) with 1-4 symbolic ASCII holes: the JSON parser accepts on a path iff the RFC 8259 recogniser does, and on acceptance the whole token tree (json, value, object, pair, array, string, number, bool, null, EOI with exact byte spans) is identical. Every path is replayed on the compiled generated parser.",
    note="The parser is regenerated from grammars/src/grammars/json.pest with the working tree's generator (the derive macro in pest_grammars expands to the same tokens). Trusted: the 120-line recogniser in lib/props/c18.py, executor + summaries (validated per path), z3. Deeper documents than the bound only via templates."),
+ "C14": dict(level="translation_validation", design="§5 C14", engine="M",
+   technique="three parsers of the meta-grammar executed symbolically from MIR on the same symbolic text inside one path: the checked-in meta/src/grammar.rs (MIR of pest_meta), the parser freshly generated from meta/src/grammar.pest, and pest_vm on the optimized rules of grammar.pest; z3 decides the joint path conditions",
+   text="For start rule grammar_rules and 7 (quick) / 15 (thorough) sub-rules, on every valid UTF-8 text of 0..N bytes (N=2/3, all bytes symbolic), and for 15/29 grammar templates (a small valid grammar with 1-2 symbolic ASCII holes in literals, escapes, counts, PEEK indices, modifiers, operators, comments, doc comments) fed to grammar_rules: the three parsers agree on acceptance, token tree, error position and expected/unexpected rule sets. Every joint path is replayed on the three compiled parsers.",
+   note="Trusted as for C02. Fully symbolic text is short (the meta-grammar forks quickly); longer texts are reached only through the templates, i.e. near a fixed skeleton."),
 }
 
 NOT_APPLICABLE = {
